@@ -256,3 +256,84 @@ func TestVerifSearch_C19_Exec(t *testing.T) {
 	fmt.Printf("VERIF-SAMPLE: { __typename @skip(if: true) a }\n")
 	fmt.Printf("VERIF-BOUNDED: evaluations=%d distinct=%d failures=%d\n", evals, distinct, failures)
 }
+
+// ---- C01 (union dispatch): every non-nil union value is rendered as an object made of the merge of all fragments
+// applicable to its concrete member type (at least {} when none applies).
+type verifA struct{ X int }
+type verifB struct{ Y int }
+type verifU struct {
+	A *verifA
+	B *verifB
+}
+
+func verifUnionSchema() *Schema {
+	noArgs := func(json interface{}) (interface{}, error) { return nil, nil }
+	field := func(f func(src interface{}) interface{}) *Field {
+		return &Field{Resolve: func(ctx context.Context, source, args interface{}, s *SelectionSet) (interface{}, error) { return f(source), nil }, Type: &Scalar{Type: "int"}, ParseArguments: noArgs}
+	}
+	a := &Object{Name: "A", Fields: map[string]*Field{"x": field(func(s interface{}) interface{} { return s.(*verifA).X }), "x2": field(func(s interface{}) interface{} { return s.(*verifA).X * 2 })}}
+	b := &Object{Name: "B", Fields: map[string]*Field{"y": field(func(s interface{}) interface{} { return s.(*verifB).Y })}}
+	u := &Union{Name: "U", Types: map[string]*Object{"A": a, "B": b}}
+	return &Schema{Query: &Object{Name: "Query", Fields: map[string]*Field{
+		"us": {Resolve: func(ctx context.Context, source, args interface{}, s *SelectionSet) (interface{}, error) {
+			return []*verifU{{A: &verifA{X: 1}}, {B: &verifB{Y: 5}}, nil}, nil
+		}, Type: &List{Type: u}, ParseArguments: noArgs},
+	}}}
+}
+
+func TestVerifSearch_C01_Union(t *testing.T) {
+	frags := []struct {
+		text string
+		a, b map[string]interface{} // what the fragment contributes for an A / a B
+	}{
+		{"... on A { x }", map[string]interface{}{"x": 1}, nil},
+		{"... on A { x2 }", map[string]interface{}{"x2": 2}, nil},
+		{"... on B { y }", nil, map[string]interface{}{"y": 5}},
+		{"... on A { x } ... on A { x2 }", map[string]interface{}{"x": 1, "x2": 2}, nil},
+		{"... on A @skip(if: true) { x }", map[string]interface{}{}, nil},
+		{"... on B @include(if: false) { y } ... on A { x }", map[string]interface{}{"x": 1}, map[string]interface{}{}},
+	}
+	schema := verifUnionSchema()
+	evals, distinct, failures := 0, 0, 0
+	for i, f1 := range frags {
+		for j, f2 := range frags {
+			if j < i {
+				continue
+			}
+			evals++
+			distinct++
+			query := "{ us { " + f1.text
+			wantA, wantB := map[string]interface{}{}, map[string]interface{}{}
+			merge := func(dst, src map[string]interface{}) {
+				for k, v := range src {
+					dst[k] = v
+				}
+			}
+			merge(wantA, f1.a)
+			merge(wantB, f1.b)
+			if i != j {
+				query += " " + f2.text
+				merge(wantA, f2.a)
+				merge(wantB, f2.b)
+			}
+			query += " } }"
+			q, err := Parse(query, map[string]interface{}{})
+			if err != nil {
+				continue
+			}
+			if err := PrepareQuery(context.Background(), schema.Query, q.SelectionSet); err != nil {
+				continue
+			}
+			got, err := NewExecutor(NewImmediateGoroutineScheduler()).Execute(context.Background(), schema.Query, nil, q)
+			want := map[string]interface{}{"us": []interface{}{wantA, wantB, nil}}
+			if err != nil || verifJSON(got) != verifJSON(want) {
+				failures++
+				if failures == 1 {
+					fmt.Printf("VERIF-FAIL-INPUT: %s\n", verifJSON(map[string]interface{}{"query": query, "got": got, "want": want, "err": fmt.Sprint(err)}))
+				}
+			}
+		}
+	}
+	fmt.Printf("VERIF-SAMPLE: { us { ... on A { x } ... on A { x2 } } }\n")
+	fmt.Printf("VERIF-BOUNDED: evaluations=%d distinct=%d failures=%d\n", evals, distinct, failures)
+}
